@@ -26,10 +26,12 @@ def build_registry(world=None) -> Registry:
     c_component_ctx.register4(reg)
     c_runner.register(reg)
     c_runner.register_run(reg)
+    c_runner.register_signals(reg)
     c_inject.register(reg)
     c_inject.register2(reg)
     c_cli.register(reg)
     c_streams.register(reg)
+    c_streams.register2(reg)
     reg._signal_decls = reg._signal_decl_finder(world)
     reg.world = world
     import os
